@@ -441,24 +441,33 @@ func (spt *Tracker) recoverWithPinInfo(ctx context.Context, pi *api.PinInfo) (*a
 	return spt.Status(ctx, pi.Cid), nil
 }
 
-func (spt *Tracker) ipfsStatusAll(ctx context.Context) (map[cid.Cid]*api.PinInfo, error) {
+func (spt *Tracker) ipfsStatusAll(ctx context.Context) (map[cid.Cid]*api.PinInfo, map[cid.Cid]api.IPFSPinStatus, error) {
 	ctx, span := trace.StartSpan(ctx, "tracker/stateless/ipfsStatusAll")
 	defer span.End()
 
-	var ipsMap map[string]api.IPFSPinStatus
-	err := spt.rpcClient.CallContext(
-		ctx,
-		"",
-		"IPFSConnector",
-		"PinLs",
-		"recursive",
-		&ipsMap,
-	)
-	if err != nil {
-		logger.Error(err)
-		return nil, err
+	// Both recursive and direct pins: cluster pins can be either.
+	ipsMap := make(map[string]api.IPFSPinStatus)
+	for _, typeFilter := range []string{"recursive", "direct"} {
+		var m map[string]api.IPFSPinStatus
+		err := spt.rpcClient.CallContext(
+			ctx,
+			"",
+			"IPFSConnector",
+			"PinLs",
+			typeFilter,
+			&m,
+		)
+		if err != nil {
+			logger.Error(err)
+			return nil, nil, err
+		}
+		for k, v := range m {
+			ipsMap[k] = v
+		}
 	}
+
 	pins := make(map[cid.Cid]*api.PinInfo, len(ipsMap))
+	ipfsStatuses := make(map[cid.Cid]api.IPFSPinStatus, len(ipsMap))
 	for cidstr, ips := range ipsMap {
 		c, err := cid.Decode(cidstr)
 		if err != nil {
@@ -476,8 +485,9 @@ func (spt *Tracker) ipfsStatusAll(ctx context.Context) (map[cid.Cid]*api.PinInfo
 			},
 		}
 		pins[c] = p
+		ipfsStatuses[c] = ips
 	}
-	return pins, nil
+	return pins, ipfsStatuses, nil
 }
 
 // localStatus returns a joint set of consensusState and ipfsStatus marking
@@ -513,9 +523,10 @@ func (spt *Tracker) localStatus(ctx context.Context, incExtra bool, filter api.T
 	}
 
 	var localpis map[cid.Cid]*api.PinInfo
+	var ipfsStatuses map[cid.Cid]api.IPFSPinStatus
 	// Only query IPFS if we want to status for pinned items
 	if filter.Match(api.TrackerStatusPinned | api.TrackerStatusUnexpectedlyUnpinned) {
-		localpis, err = spt.ipfsStatusAll(ctx)
+		localpis, ipfsStatuses, err = spt.ipfsStatusAll(ctx)
 		if err != nil {
 			logger.Error(err)
 			return nil, err
@@ -549,7 +560,9 @@ func (spt *Tracker) localStatus(ctx context.Context, incExtra bool, filter api.T
 			}
 			pinInfo.Status = api.TrackerStatusRemote
 			pininfos[p.Cid] = &pinInfo
-		case pinnedInIpfs: // always false unless filter matches TrackerStatusPinnned
+		// pinned only if ipfs holds it as the pin asks (same check as
+		// Status() does through PinLsCid).
+		case pinnedInIpfs && ipfsStatuses[p.Cid].IsPinned(p.MaxDepth): // always false unless filter matches TrackerStatusPinnned
 			ipfsInfo.Name = p.Name
 			pininfos[p.Cid] = ipfsInfo
 		default:
